@@ -7,7 +7,7 @@ from checks.asdu_common import asan_site
 # model-free oracle flags printed by the harness -> property they speak for
 ORACLE = {"ORDER_FAIL": ("C13", "reply-order"), "WIRE_FAIL": ("C03", "wire-format"), "KWIN_FAIL": ("C04", "window-bound"), "ACK_FAIL": ("C04", "ack-validation"),
           "SEG_FAIL": ("C05", "segmentation"), "LIFE_FAIL": ("C18", "lifecycle"), "GROUP_FAIL": ("C08", "groups"),
-          "QUEUE_FAIL": ("C06", "event-queue"), "T2_FAIL": ("C11", "ack-deadline-t2"), "T1_FAIL": ("C11", "testfr-t1")}
+          "QUEUE_FAIL": ("C06", "event-queue"), "RETAIN_FAIL": ("C06", "retention"), "T2_FAIL": ("C11", "ack-deadline-t2"), "T1_FAIL": ("C11", "testfr-t1")}
 
 
 CLIENT_PROPS = {"C03", "C04", "C05", "C11", "C18"}
